@@ -30,6 +30,7 @@ RULE = (
     "{16,28,60,76} x header signing on/off x {sync, async}; reply path: envelope lengths covering every residue mod 16 (domain/forest name lengths "
     "0..40) x auth pad_length 0..15 x alignment {4,8,16}, success and HRESULT != 0 replies, plus real NTLM exchanges. distinct = the tuple; "
     "non-trivial = all (the suite never drives request())"
+    " Also: several requests per connection; two or three connections alive at once with different negotiations (two-clients-* shards)."
 )
 ASSUMPTIONS = [
     "ScriptedContext stands in for the GSS mechanism: transparent XOR seal + HMAC over exactly the buffers marked signed; what the client passes to wrap_iov/unwrap_iov is logged",
